@@ -603,9 +603,17 @@ func run(r *vrt.Run) {
 		r.Require("reopen_after_recover", 8)
 	}
 	r.Require("histories", 20)
-	r.Require("recovers", 100)
-	r.Require("recover_in-buffer", 5)
-	r.Require("recover_buffer-boundary", 3)
+	if r.Race() {
+		// the race variant runs a quarter of the histories: the rare rollback classes are
+		// obligations of the default variant; here they only have to occur at all
+		r.Require("recovers", 50)
+		r.Require("recover_in-buffer", 1)
+		r.Require("recover_buffer-boundary", 1)
+	} else {
+		r.Require("recovers", 100)
+		r.Require("recover_in-buffer", 5)
+		r.Require("recover_buffer-boundary", 3)
+	}
 	r.Require("recover_disk", 20)
 	r.Require("recover_depth1", 5)
 	r.Require("recover_window_edge", 5)
